@@ -105,6 +105,9 @@ def run(rep, tier, seed, model_ok=True, effort=1):
                 # already configured: refuse, change nothing
                 if c1 == 0 or after != before:
                     rep.violation("init did not refuse although a bumpver section exists in %s" % has_section, input=dict(inp, out=o1[-200:]), **{"class": "no-refusal"})
+                # ... and --dry says the same as the real run: it does not announce a configuration it would write
+                if c1 != 0 and (c0 == 0 or "Would have written" in o0):
+                    rep.violation("init --dry does not refuse (exit %s) although init refuses: a bumpver section exists in %s" % (c0, has_section), input=dict(inp, out=o0[-200:]), **{"class": "no-refusal"})
                 configured = True
             else:
                 configured = False
@@ -134,6 +137,9 @@ def run(rep, tier, seed, model_ok=True, effort=1):
                     c3, o3, e3 = impl.run_cli(["init"], cwd=d)
                     if c3 == 0 or snapshot(d) != mid:
                         rep.violation("a second init did not refuse / changed files", input=inp, **{"class": "second-init"})
+                    c4, o4, e4 = impl.run_cli(["init", "--dry"], cwd=d)
+                    if c4 == 0 or "Would have written" in o4 or snapshot(d) != mid:
+                        rep.violation("a second init --dry did not refuse (exit %s) / announced a configuration to write" % c4, input=dict(inp, out=o4[-200:]), **{"class": "second-init"})
             # a file with a section is preferred
             if has_section and not configured:
                 pass
